@@ -124,6 +124,14 @@ Theorem C20_ini_multiline_accumulates :
     ini_value true v = IVal (VList items).
 Proof. exact ini_value_multiline. Qed.
 
+(* repeated options written as a Python list display of repr-quoted items:  key = ['a', 'b', ...]  is read back as
+   exactly those items, in order (for every list of Python strs) *)
+Theorem C20_ini_list_display_roundtrip :
+  forall (printable : N -> bool) (split : bool) (items : list text),
+    Forall (Forall (repr_valid printable)) items ->
+    ini_value split (list_display (py_repr printable) items) = IVal (VList items).
+Proof. exact ini_value_repr_list. Qed.
+
 (* ================================================================== unknown keys *)
 
 (* ValidatorParser on a dict (distinct keys): the result is the sub-list of entries with known keys, order and
